@@ -393,7 +393,13 @@ func cmdCheck(args []string) int {
 			drop := false
 			for _, o := range r.Obls {
 				if o.AutoFrame != "" && o.Result != nil && o.Result.Status != "unsat" {
-					ld.eng.disabledFrames[o.AutoFrame] = true
+					if len(o.AutoKeys) > 0 {
+						for _, k := range o.FailedAuto {
+							ld.eng.disabledFrames[k] = true
+						}
+					} else {
+						ld.eng.disabledFrames[o.AutoFrame] = true
+					}
 					drop = true
 				}
 			}
@@ -623,7 +629,13 @@ func cmdFunc(args []string) int {
 				drop := false
 				for _, o := range rep.Obls {
 					if o.AutoFrame != "" && o.Result.Status != "unsat" {
-						ld.eng.disabledFrames[o.AutoFrame] = true
+						if len(o.AutoKeys) > 0 {
+							for _, k := range o.FailedAuto {
+								ld.eng.disabledFrames[k] = true
+							}
+						} else {
+							ld.eng.disabledFrames[o.AutoFrame] = true
+						}
 						drop = true
 					}
 				}
@@ -683,7 +695,7 @@ func cmdFunc(args []string) int {
 					}
 				}
 			}
-			fmt.Printf("trivial=%d inlined=%v calls=%v havocked=%v\n", rep.Trivial, rep.Inlined, rep.Calls, rep.Havocked)
+			fmt.Printf("trivial=%d inlined=%v calls=%v havocked=%v vcgen_ms=%d\n", rep.Trivial, rep.Inlined, rep.Calls, rep.Havocked, rep.GenMs)
 		}
 	}
 	return code
